@@ -386,12 +386,15 @@ def r6_edit_effect(r, facts):
             continue
         # from the `Some(ptr)` edge of the test of self.owned every normal return passes the store, except over the exits the
         # contract names (truncate: len > current; extend: Err; remove: nothing — it panics on an invalid range)
-        starts = [Loc(v2['edge'][1], 0) for v2 in variant_edges(f, 'std::option::Option', 'Some')
-                  if not f.blocks[v2['edge'][0]]['cleanup']]
-        starts = [st for st in starts if any(f.dominates(st, g_) or st[0] == g_[0] for g_ in good)]
-        if not r.require(bool(starts), 'effect:%s/some-edge' % meth, 'the test of self.owned was not found (unrecognised form)', f.where()):
-            continue
-        allowed = []
+        # (the "no slot" exit: the None edge of a test of self.owned — whether written as `if let Some(p) = self.owned`, a match,
+        # or `self.owned.map(..)` written out, where both edges join again before the store)
+        ebp = ExprBuilder(f, multi='phi')
+        starts = [Loc(0, 0)]
+        allowed = [Loc(v2['edge'][1], 0) for v2 in variant_edges(f, 'std::option::Option', 'None')
+                   if not f.blocks[v2['edge'][0]]['cleanup'] and 'owned' in str(ebp.place(v2['si']['place']))
+                   and not any(g_[0] == v2['edge'][1] for g_ in good)]
+        # a None edge that still runs into the store (the `map` form) is not an exit
+        allowed = [a_ for a_ in allowed if f.forward_paths_hit([a_], good) is None]
         if meth == 'truncate':
             for b, blk in enumerate(f.blocks):
                 if blk['term']['k'] == 'switch' and not blk['cleanup']:
@@ -409,7 +412,7 @@ def r6_edit_effect(r, facts):
                         elif e[1] == 'Ge' and cur_len(a_) and arg_n(2)(b_) and t_false is not None:
                             allowed.append(Loc(t_false, 0))
         elif meth == 'extend_from_slice':
-            allowed = [loc for loc, s_ in f.assigns() if s_['lhs']['l'] == 0 and s_['rv']['k'] == 'agg' and s_['rv'].get('variant') == 'Err']
+            allowed += [loc for loc, s_ in f.assigns() if s_['lhs']['l'] == 0 and s_['rv']['k'] == 'agg' and s_['rv'].get('variant') == 'Err']
         hit = f.forward_paths_hit(starts, f.returns(), blockers=good + allowed)
         r.require(hit is None, 'effect:%s/skipped' % meth, 'a path through ReadBuf::%s on which the buffer holds a slot returns normally without storing the new length (outside the exits its contract names): the edit silently does nothing' % meth, f.where(hit[0]) if hit else '')
     # remove(range): the half-open window [start, end) the bounds stand for — Included(i) starts at i, Excluded(i) at i + 1,
